@@ -39,7 +39,7 @@ def run(ctx):
     # (N, capI, capB, depth of gen/fifo, depth of macro, modes, number of schedules replayed)
     # runs with "macro" use one worker (deterministic breadth-first order of the printed histories)
     runs = [(3, 1, 1, 14, 0, ["gen", "fifo"], 0),
-            (3, 1, 1, 0, ctx.pick(8, 10), ["macro"], ctx.pick(1200, 10 ** 9)),
+            (3, 1, 1, 0, ctx.pick(8, 10), ["macro"], ctx.pick(800, 10 ** 9)),
             (2, 2, 1, 14, 12, ["gen", "fifo", "macro"], 10 ** 9)]
     if ctx.thorough:
         runs += [(3, 2, 1, 14, 0, ["gen", "fifo"], 0),
